@@ -1,4 +1,8 @@
 pub fn time_millis() -> i64 {
+    #[cfg(acts_verif)]
+    if let Some(t) = crate::verif::clock_now() {
+        return t;
+    }
     let time: chrono::DateTime<chrono::Utc> = chrono::Utc::now();
     time.timestamp_millis()
 }
